@@ -10,6 +10,9 @@
 //                          doPendingFunctors(), the by-value parameter of an inline runInLoop()).  A task started by the
 //                          pipe's read callback (p<id>) is a plain function call: no functor object, no `dtor`.
 //   pre: <subs>            what the loop's owner does before loop() (elt: inside the ThreadInitCallback)
+//   again: <subs>          plain mode, repeatable, in order: after loop() has returned (`returned`) the owner thread executes
+//                          the next segment outside loop() and calls loop() AGAIN on the same EventLoop (an empty segment:
+//                          at once); every return prints `returned`
 //   thread <k>: <subs>     program of thread k (plain: k >= 1 foreign threads; elt: only k = 0)
 //   follow <k k k …>       directed schedule: which thread performs the next visible event
 //   schedule <ints>        raw detsched schedule
@@ -78,6 +81,7 @@ bool g_elt = false;                       // mode
 Subs g_task[256];
 Subs g_dtor[256];                         // destructor body of what task <id>'s functor object owns (empty: owns nothing)
 Subs g_pre;
+std::vector<Subs> g_again;                // plain mode: segments the owner runs after loop() returned, each followed by loop()
 std::vector<Subs> g_thread;               // index = k
 std::vector<int> g_follow;
 bool g_haveFollow = false;
@@ -520,7 +524,7 @@ void readInput() {
       g_schedule = parseInts(w, 1);
     } else if (head == "spurious") {
       g_spurious = true;
-    } else if (head == "task" || head == "dtor" || head == "pre" || head == "thread") {
+    } else if (head == "task" || head == "dtor" || head == "pre" || head == "again" || head == "thread") {
       size_t colon = line.find(':');
       if (colon == std::string::npos) fail("missing ':' in '" + line + "'");
       std::vector<std::string> hw = vh::words(line.substr(0, colon));
@@ -528,6 +532,9 @@ void readInput() {
       if (head == "pre") {
         if (hw.size() != 1) fail("bad pre line");
         g_pre = body;
+      } else if (head == "again") {
+        if (hw.size() != 1) fail("bad again line");
+        g_again.push_back(body);
       } else {
         int id = 0;
         if (hw.size() != 2 || !parseId(hw[1], 0, &id)) fail("bad header '" + line.substr(0, colon) + "'");
@@ -583,6 +590,11 @@ int main() {
     doSubs(g_pre);
     loop->loop();
     say("returned");
+    for (size_t i = 0; i < g_again.size(); ++i) {
+      doSubs(g_again[i]);
+      loop->loop();
+      say("returned");
+    }
     ds::waitAll();
   } else {
     ds::begin(g_schedule);
